@@ -11,6 +11,8 @@ mod portable_suite;
 use probe::*;
 use std::io::{BufRead, Write};
 
+static CASE_NO: std::sync::atomic::AtomicU64 = std::sync::atomic::AtomicU64::new(0);
+
 fn main() {
     // panics are outcomes here, not diagnostics
     std::panic::set_hook(Box::new(|_| {}));
@@ -20,6 +22,26 @@ fn main() {
             println!("{}", s);
         }
         return;
+    }
+    // per-case watchdog: a change to the library that makes one case run (almost) for ever must not
+    // stall the whole check; the process exits with 124 and the driver attributes the hang to the
+    // case announced last and re-runs the rest in a fresh process
+    let limit: u64 = std::env::var("VERIF_CASE_TIMEOUT").ok().and_then(|v| v.parse().ok()).unwrap_or(30);
+    if limit > 0 {
+        std::thread::spawn(move || {
+            let mut last = CASE_NO.load(std::sync::atomic::Ordering::SeqCst);
+            let mut since = std::time::Instant::now();
+            loop {
+                std::thread::sleep(std::time::Duration::from_millis(250));
+                let now = CASE_NO.load(std::sync::atomic::Ordering::SeqCst);
+                if now != last {
+                    last = now;
+                    since = std::time::Instant::now();
+                } else if now % 2 == 1 && since.elapsed().as_secs() >= limit {
+                    std::process::exit(124);
+                }
+            }
+        });
     }
     let stdin = std::io::stdin();
     let stdout = std::io::stdout();
@@ -35,6 +57,7 @@ fn main() {
         // announce the case first so that a hang or abort can be attributed
         writeln!(out, "#start {}", cid).unwrap();
         out.flush().unwrap();
+        CASE_NO.fetch_add(1, std::sync::atomic::Ordering::SeqCst);
         let res = match op {
             "L" | "V" | "M" | "E" | "A" | "D" => {
                 let tid = toks[2];
@@ -103,5 +126,7 @@ fn main() {
         };
         writeln!(out, "{} {}", cid, res).unwrap();
         out.flush().unwrap();
+        // even = between cases (waiting for input does not count)
+        CASE_NO.fetch_add(1, std::sync::atomic::Ordering::SeqCst);
     }
 }
